@@ -352,14 +352,14 @@ static int b_prefix; /* number of distinct prefix insertions before the explored
 struct bst
 {
 	struct json_object *obj;
-	int mk[BK + 12], mv[BK + 12]; /* model: key index (>=100: prefix key), value id */
+	int mk[BK + 48], mv[BK + 48]; /* model: key index (>=100: prefix key), value id */
 	int n;
 	int next_val;
 	int destroyed[256];
 	int dead;
 };
 static struct bst *cur_b;
-static char prefkeys[12][8];
+static char prefkeys[48][8];
 static void bval_deleted(struct json_object *o, void *ud)
 {
 	(void)o;
@@ -429,7 +429,7 @@ static void *b_fresh(void)
 }
 struct visit_log
 {
-	const char *keys[32];
+	const char *keys[64];
 	int n;
 };
 static int visit_cb(json_object *jso, int flags, json_object *parent, const char *key, size_t *index, void *ud)
@@ -437,7 +437,7 @@ static int visit_cb(json_object *jso, int flags, json_object *parent, const char
 	(void)jso;
 	(void)index;
 	struct visit_log *l = ud;
-	if (parent && !(flags & JSON_C_VISIT_SECOND) && l->n < 32)
+	if (parent && !(flags & JSON_C_VISIT_SECOND) && l->n < 64)
 		l->keys[l->n++] = key;
 	return JSON_C_VISIT_RETURN_CONTINUE;
 }
@@ -458,7 +458,7 @@ static int check_order(struct bst *s, const char *what, const char *form, const 
 }
 static void b_compare(struct bst *s, const char *what)
 {
-	const char *got[40];
+	const char *got[64];
 	int n;
 	if (json_object_object_length(s->obj) != s->n)
 	{
@@ -498,7 +498,7 @@ static void b_compare(struct bst *s, const char *what)
 	{
 		json_object_object_foreach(s->obj, k1, v1)
 		{
-			if (n < 40)
+			if (n < 64)
 				got[n++] = k1;
 		}
 	}
@@ -509,7 +509,7 @@ static void b_compare(struct bst *s, const char *what)
 		struct json_object_iter it;
 		json_object_object_foreachC(s->obj, it)
 		{
-			if (n < 40)
+			if (n < 64)
 				got[n++] = it.key;
 		}
 	}
@@ -518,7 +518,7 @@ static void b_compare(struct bst *s, const char *what)
 	n = 0;
 	{
 		struct json_object_iterator it = json_object_iter_begin(s->obj), end = json_object_iter_end(s->obj);
-		while (!json_object_iter_equal(&it, &end) && n < 40)
+		while (!json_object_iter_equal(&it, &end) && n < 64)
 		{
 			got[n++] = json_object_iter_peek_name(&it);
 			json_object_iter_next(&it);
@@ -563,12 +563,12 @@ static void b_delete_while_iterating(struct bst *s, int p)
 	for (int i = 0; i < bfs_cur_n; i++)
 		b_apply(c, bfs_cur_hist[i], 0);
 	cur_b = c;
-	char seen[40][304];
+	static char seen[64][304];
 	int ns = 0, pos = 0;
 	{
 		json_object_object_foreach(c->obj, k1, v1)
 		{
-			if (ns < 40)
+			if (ns < 64)
 				snprintf(seen[ns++], sizeof seen[0], "%s", k1);
 			if (p < 0 || pos == p)
 				json_object_object_del(c->obj, k1);
@@ -803,15 +803,21 @@ static void level_b(void)
 		bkeys[nb++] = c1;
 	if (got32)
 		bkeys[nb++] = c2;
-	for (int i = 0; i < 12; i++)
+	for (int i = 0; i < 48; i++)
 		snprintf(prefkeys[i], sizeof prefkeys[i], "p%d", i);
 	bfs_shard_mode = 0;
 	int depth = (int)mc_opt_int("depth", mc_tier ? 6 : 4);
-	for (b_prefix = 0; b_prefix <= 10; b_prefix += 10)
+	/* prefixes put the next table growth inside the depth bound: 16->32 at the 11th member,
+	 * 32->64 at the 22nd, 64->128 at the 43rd */
+	static const int prefixes[] = {0, 10, 21, 42};
+	int nprefix_cfg = mc_tier ? 4 : 3;
+	for (int pc = 0; pc < nprefix_cfg; pc++)
 	{
+		b_prefix = prefixes[pc];
 		snprintf(cfgdesc, sizeof cfgdesc, "level=b hashfn=%d seed=%ld prefix=%d collide16=%s collide32=%s", hashfn, seed, b_prefix, got16 ? c1 : "-", got32 ? c2 : "-");
 		struct bfs_stats st;
-		bfs_run(&bcb, depth, mc_tier ? 2000000 : 400000, &st);
+		/* the larger prefixes cost more per transition (iteration oracles are linear in the size) */
+		bfs_run(&bcb, depth - (mc_tier && b_prefix > 10 ? 1 : 0), mc_tier ? 2000000 : 400000, &st);
 		MC_COUNT("states", st.states);
 		MC_COUNT("transitions", st.transitions);
 		MC_COUNT("configurations", 1);
@@ -875,7 +881,7 @@ static int replay(const char *desc)
 			bkeys[nb++] = c1;
 		if (mc_desc_str(desc, "collide32", c2, sizeof c2) && strcmp(c2, "-"))
 			bkeys[nb++] = c2;
-		for (int i = 0; i < 12; i++)
+		for (int i = 0; i < 48; i++)
 			snprintf(prefkeys[i], sizeof prefkeys[i], "p%d", i);
 		snprintf(cfgdesc, sizeof cfgdesc, "level=b replay prefix=%d", b_prefix);
 		bfs_replay(&bcb, desc);
